@@ -16,12 +16,21 @@ PROP = dict(
         dict(module="TicketRotation", cfg=dict(thorough="TicketRotationSrvLive_thorough.cfg"), workers=4, timeout=600),
         dict(module="TicketRotationHist", cfg=dict(thorough="TicketRotationHist_thorough.cfg"), emit=True, workers=2, timeout=300),
         dict(module="TicketRotation", cfg=dict(quick="TicketRotationEmit_quick.cfg", thorough="TicketRotationEmit_thorough.cfg"), emit=True, workers=2, timeout=300),
+    ] + [
+        # extension: event emission and the `on` directive across the lifecycle (notes/EventHooks.md)
+        dict(module="EventHooks", cfg=dict(quick="EventHooks_quick.cfg", thorough="EventHooks_thorough.cfg"), workers=8, timeout=dict(quick=300, thorough=900)),
+        dict(module="EventHooks", cfg=dict(thorough="EventHooksLive_thorough.cfg"), workers=4, timeout=600),
+        dict(module="EventHooks", cfg=dict(thorough="EventHooksEarly_thorough.cfg"), workers=4, timeout=300, coverage=True),
+        dict(module="EventHooksHist", cfg="EventHooksHist.cfg", emit=True, workers=1,
+             simulate=dict(quick=dict(num=150, depth=20), thorough=dict(num=3000, depth=20)), timeout=300),
     ],
     go=[dict(pkg="c16", test="TestC16", timeout=dict(quick=600, thorough=3600)),
-        dict(pkg="cx16tickets", test="TestCx16Tickets", timeout=dict(quick=300, thorough=900))],
+        dict(pkg="cx16tickets", test="TestCx16Tickets", timeout=dict(quick=300, thorough=900)),
+        dict(pkg="cx16events", test="TestCx16Events", timeout=dict(quick=300, thorough=900))],
     traces=[dict(name="lifecycle", module="LifecycleTrace", cfg="LifecycleTrace.cfg", timeout=600),
             dict(name="shutdown", module="ShutdownTrace", cfg="ShutdownTrace.cfg", timeout=600),
-            dict(name="ticketrotation", module="TicketRotationTrace", cfg="TicketRotationTrace.cfg", timeout=600)],
+            dict(name="ticketrotation", module="TicketRotationTrace", cfg="TicketRotationTrace.cfg", timeout=600),
+            dict(name="eventhooks", module="EventHooksTrace", cfg="EventHooksTrace.cfg", timeout=600)],
     exhaustive=dict(quick=False, thorough=True),
     technique="TLA+ spec Lifecycle.tla model-checked by TLC; TLC-generated histories executed on the real casket package, recorded traces validated by TLC (LifecycleTrace.tla)",
     level_text="TLC explores every interleaving of the controller steps of Start/Restart/Stop/casket.Stop with the server goroutines and Wait()ers for all histories up to the bound and checks the callback-count/order invariants and the WaitGroup accounting; every history is then executed against the real package (scriptable server type registered through the public plugin API, real loopback sockets for the fd hand-over) and the recorded event trace must be a behaviour of the specification with all invariants holding at every step.",
